@@ -396,7 +396,8 @@ def main(tier):
                 chk.fail("static-type/asymmetric-acceptance", "%s op %s is %s but %s op %s is %s" % (t1, t2, "rejected for %s" % sorted(a) if a else "accepted", t2, t1,
                                                                                               "rejected for %s" % sorted(b) if b else "accepted"), {"left": t1, "right": t2})
     chk.extra["operand_pairs_not_defined_by_yardl"] = sorted(k[1:] for k in rej_pairs)
-    rc, err, outdir = cppdrv.generate(pkg, root, targets=("cpp", "python"), cpp_opts={"generateNDJson": "false"})
+    # all back ends in one run, as a user would have them: they work on one shared model, one after the other
+    rc, err, outdir = cppdrv.generate(pkg, root, targets=("cpp", "python", "matlab"), cpp_opts={"generateNDJson": "false"})
     if rc != 0:
         raise build.HarnessError("yardl rejected the C19 package: " + err[-800:])
     h = build.HarnessProc("cftypes")
